@@ -122,11 +122,22 @@ class _H(BaseRequestHandler):
         return f
 
 
+class _SyncLeasePublisher:
+    """a lease publisher that hands out the current lease synchronously on subscription"""
+
+    def subscribe(self, subscriber):
+        from rsocket.lease import DefinedLease
+        subscriber.on_next(DefinedLease(5, timedelta(seconds=10)))
+
+
+LEASEPUB = part('leasepub', 0)      # 0 none, 1 lease publisher emitting synchronously in subscribe(), 2 SingleLeasePublisher (emits from a task)
+
+
 def c_setup_first(suspend: bool, when: int, kind: int, wait_ms: int, ticks_after: int) -> str:
     """
     SETUP precedes every other frame, and is sent once, whatever is requested while connecting: transport whose
-    connect() suspends (for a SYMBOLIC time, so keep-alive ticks may fall inside) or not; a request of 5 kinds
-    issued before the connect task first runs / while connect() is suspended / after it.
+    connect() suspends (for a SYMBOLIC time, so keep-alive ticks may fall inside) or not; optionally a client-side
+    lease publisher (LEASEPUB: emitting synchronously in subscribe() / from a task); a request of 5 kinds issued before the connect task first runs / while connect() is suspended / after it.
 
     pre: 0 <= when <= 3 and kind == KIND
     pre: 0 <= wait_ms <= 2500
@@ -139,7 +150,19 @@ def c_setup_first(suspend: bool, when: int, kind: int, wait_ms: int, ticks_after
     loop = new_loop()
     with loop:
         t = SimTransport(loop, suspend_connect=suspend)
-        c = RSocketClient(provider([t]), keep_alive_period=timedelta(seconds=1), max_lifetime_period=timedelta(seconds=300))
+        lp = None
+        if LEASEPUB == 1:
+            lp = _SyncLeasePublisher()
+        elif LEASEPUB == 2:
+            lp = SingleLeasePublisher(maximum_request_count=5, maximum_lease_time=timedelta(seconds=10))
+        c = RSocketClient(provider([t]), keep_alive_period=timedelta(seconds=1), max_lifetime_period=timedelta(seconds=300),
+                          honor_lease=lp is not None, lease_publisher=lp)
+        if lp is not None:
+            # the simulated server grants a lease right away so that requests are not held back
+            lf = LeaseFrame()
+            lf.number_of_requests = 100
+            lf.time_to_live = 1000000
+            t.feed_wire(lf)
 
         def req():
             if kind == 0:
@@ -184,7 +207,7 @@ def c_setup_first(suspend: bool, when: int, kind: int, wait_ms: int, ticks_after
             devs.append('frame-before-SETUP:' + (type(frames[0]).__name__ if frames else 'nothing-sent'))
         if len([f for f in frames if isinstance(f, SetupFrame)]) != 1:
             devs.append('SETUP-not-sent-exactly-once')
-        if len(frames) < 2:
+        if len([f for f in frames if not isinstance(f, (SetupFrame, KeepAliveFrame, LeaseFrame))]) < 1:
             devs.append('request-issued-while-connecting-was-lost')
         d = generic_dev(loop, c)
         if d:
